@@ -284,10 +284,11 @@ class Defs:
         body = to_lean(chosen, "prop" if prop else "nat")
         if wrap:
             body = "wrap " + body
+        binder = "(%s : Nat) " % " ".join(params) if params else ""
         if prop:
-            self.out.append("def %s (%s : Nat) : Bool := decide %s" % (name, " ".join(params), body))
+            self.out.append("def %s %s: Bool := decide %s" % (name, binder, body))
         else:
-            self.out.append("def %s (%s : Nat) : Nat := %s" % (name, " ".join(params), body))
+            self.out.append("def %s %s: Nat := %s" % (name, binder, body))
         self.fn[name] = (params, chosen, wrap)
 
     def value(self, ast, params, point, wrap):
@@ -483,6 +484,16 @@ def translate(repo):
         D.add("paAccepts", ("n",), "!(" + m2.group(1) + ")", "n==1", {"n": ("n", "n")}, prop=True, grid=grid1)
     else:
         raise TranslateError("PoolAllocator::allocate body not understood: %r" % pbody)
+    m = find(r"(?:int|size_type|std::size_t)\s+max_size\s*\(\s*\)\s*const\s*(?:noexcept)?\s*\{\s*return\s+([^;]+);\s*\}", pa_src,
+             "PoolAllocator::max_size")
+    D.add("paMaxSize", (), m.group(1), "1", {}, grid=lambda: [()])
+    # deallocate(p, n) gives back n consecutive objects, one pool.free each
+    dm = find(r"PoolAllocator<T,s>::deallocate\s*\([^)]*\)\s*\{", src, "PoolAllocator::deallocate")
+    dbody_pa = nows(block_after(src, dm, "PoolAllocator::deallocate"))
+    if not re.fullmatch(r"for\((?:size_t|std::size_t|size_type)i=0;i<n;(?:i\+\+|\+\+i)\)\{?memoryPool_\.free\(p\+\+\);\}?", dbody_pa):
+        raise TranslateError("PoolAllocator::deallocate body not understood: %r" % dbody_pa)
+    out.append("/-- deallocate(p, n) calls pool.free this many times (on p, p+1, …) -/")
+    out.append("def paDeallocFrees (n : Nat) : Nat := n")
     out.append("")
 
     # ---- MallocAllocator ----------------------------------------------------------------------
